@@ -23,11 +23,12 @@ func H_C19_embedfs() {
 	r := ndChoice("root", len(roots))
 	p := ndChoice("path", len(paths))
 	l := NewLoader(roots[r], c19FS)
-	// reference: the universe of embedded regular files
-	files := map[string]bool{
-		"testData/includeIfNotExists/existent.jet": true, "testData/includeIfNotExists/exists.jet": true,
-		"testData/includeIfNotExists/notExistent.jet": true, "testData/includeIfNotExists/wcontext.jet": true,
-		"testData/includeIfNotExists/wcontext_child.jet": true, "testData/includeIfNotExists/ifIncludeIfExits.jet": true,
+	// reference: the regular files below the embedded directory, as listed on disk
+	files := map[string]bool{}
+	for _, e := range vfListTree("/repo/loaders/embedfs") {
+		if len(e) > 10 && e[:10] == "/testData/" && e[len(e)-1] != '/' {
+			files[e[1:]] = true
+		}
 	}
 	full := rootDirs[r] + paths[p]
 	if rootDirs[r] == "" {
